@@ -29,6 +29,15 @@ import (
 // claim whose LTime was newer than the node's own status time must have produced
 // a queued join intent about the node with a strictly greater LTime.
 
+// c03Clock reads the node's member clock from its push/pull state.
+func c03Clock(nd *cluster.Node) uint64 {
+	st, err := nd.State()
+	if err != nil {
+		return 0
+	}
+	return st.LTime
+}
+
 func c03SelfLTime(nd *cluster.Node) (uint64, bool) {
 	st, err := nd.State()
 	if err != nil {
@@ -146,6 +155,7 @@ func c03History(t *testing.T, rng *rand.Rand) (viols [][2]string, stats map[stri
 			var claim uint64
 			isClaim := false
 			step := ""
+			c0 := c03Clock(nd) // the node's Lamport clock before the step
 			switch x := rng.Intn(20); {
 			case x < 9:
 				claim = pickLT()
@@ -153,12 +163,16 @@ func c03History(t *testing.T, rng *rand.Rand) (viols [][2]string, stats map[stri
 				pr := rng.Intn(3) == 0
 				step = fmt.Sprintf("leave(self,%d,prune=%v)", claim, pr)
 				nd.NotifyMsg(wire.Encode(wire.Leave, &wire.MsgLeave{LTime: claim, Node: "self", Prune: pr}))
-				if rng.Intn(4) == 0 && claim < math.MaxUint64-100 {
+				if rng.Intn(4) == 0 && claim < math.MaxUint64-100 && c0 < math.MaxUint64-100 {
 					// a second, newer claim right behind the first (no quiescence in between: the refutation
 					// of the first may still be on its way); the newer one has to be refuted as well
-					// (at least 2 newer: the first refutation carries the first claim's time + 1, and a claim
-					// equal to the node's own latest join is not a newer claim)
-					claim += 2 + uint64(rng.Intn(20))
+					// (newer than the refutation of the first: that one carries the node's clock after it
+					// witnessed the first claim, max(clock, claim+1), and a claim equal to the node's own
+					// latest join is not a newer claim)
+					if claim+1 > c0 {
+						c0 = claim + 1
+					}
+					claim = c0 + 1 + uint64(rng.Intn(20))
 					pr2 := rng.Intn(3) == 0
 					nd.NotifyMsg(wire.Encode(wire.Leave, &wire.MsgLeave{LTime: claim, Node: "self", Prune: pr2}))
 					step += fmt.Sprintf("+leave(self,%d,prune=%v)", claim, pr2)
